@@ -1,6 +1,6 @@
 import XrsVerif.Proofs.ILangStrides
 import XrsVerif.Gen.IL
-import XrsVerif.Proofs.Focal
+import XrsVerif.Model.Focal
 /-
   Proofs/ILFocal.lean -- refinement (layer T3): the ILang program `Gen.IL.convolve2d`, generated statement by
   statement from `_convolve_2d_numpy` of xrspatial/convolution.py, computes, for every raster and every kernel of
@@ -21,6 +21,13 @@ open XrsVerif XrsVerif.IL
 set_option linter.unusedSectionVars false
 set_option linter.unusedSimpArgs false
 variable {F : Type} [Fl F]
+
+/-- (as `mem_intRange` of Proofs/Focal.lean; this file does not depend on the T2 proofs) -/
+theorem mem_intRange' (lo hi k : Int) : k ∈ intRange lo hi ↔ lo ≤ k ∧ k < hi := by
+  simp only [intRange, List.mem_map, List.mem_range]
+  constructor
+  · rintro ⟨a, ha, rfl⟩; omega
+  · intro h; exact ⟨(k - lo).toNat, by omega, by omega⟩
 
 /-- a flat row-major list with `cols` columns as a 2-D array (non-negative indices) -/
 def listArr (l : List F) (cols : Nat) : Arr F := fun i j => l.getD (i.toNat * cols + j.toNat) Fl.nan
@@ -334,7 +341,7 @@ theorem conv_j (data kernel : List F) (nx ny a b : Nat) (fuel : Nat) (s : State 
     (fun o j => o.set (i.toNat * ny + j.toNat) (cellVal data kernel ny a b i j))
     (by
       intro st x hx hc hK
-      have hx' := (mem_intRange _ _ _).mp hx
+      have hx' := (mem_intRange' _ _ _).mp hx
       have hK1 : Keeps ["j", "jjmin", "jjmax", "ii", "iii", "jj", "jjj"] st { st with ienv := setS st.ienv "j" x } := by
         refine ⟨hc, rfl, fun _ _ => rfl, ?_⟩
         intro v hv
@@ -404,7 +411,7 @@ theorem conv_rows (data kernel : List F) (nx ny a b : Nat) (fuel : Nat) (s : Sta
     (fun st => st.fa "out") (fun o i => rowFold data kernel ny a b i o)
     (by
       intro st x hx hc hK
-      have hx' := (mem_intRange _ _ _).mp hx
+      have hx' := (mem_intRange' _ _ _).mp hx
       have hK1 : Keeps ["i", "iimin", "iimax", "j", "jjmin", "jjmax", "ii", "iii", "jj", "jjj"] st
           { st with ienv := setS st.ienv "i" x } := by
         refine ⟨hc, rfl, fun _ _ => rfl, ?_⟩
@@ -544,8 +551,8 @@ theorem rowsFold_replicate (data kernel : List F) (nx ny a b : Nat) :
       · intro x hx hxt
         obtain ⟨i, hi, hx⟩ := List.mem_flatMap.mp hx
         obtain ⟨j, hj, rfl⟩ := List.mem_map.mp hx
-        have hi' := (mem_intRange _ _ _).mp hi
-        have hj' := (mem_intRange _ _ _).mp hj
+        have hi' := (mem_intRange' _ _ _).mp hi
+        have hj' := (mem_intRange' _ _ _).mp hj
         simp only at hxt
         have := idx_inj i.toNat j.toNat (t / ny) (t % ny) ny (by omega) hq (by rw [hxt]; exact htd)
         have e1 : i = ((t / ny : Nat) : Int) := by omega
@@ -553,8 +560,8 @@ theorem rowsFold_replicate (data kernel : List F) (nx ny a b : Nat) :
         simp only [e1, e2]
       · refine ⟨(((t / ny : Nat) : Int), ((t % ny : Nat) : Int)), ?_, ?_⟩
         · apply List.mem_flatMap.mpr
-          refine ⟨((t / ny : Nat) : Int), (mem_intRange _ _ _).mpr ⟨hin.1, hin.2.1⟩, ?_⟩
-          exact List.mem_map.mpr ⟨((t % ny : Nat) : Int), (mem_intRange _ _ _).mpr ⟨hin.2.2.1, hin.2.2.2⟩, rfl⟩
+          refine ⟨((t / ny : Nat) : Int), (mem_intRange' _ _ _).mpr ⟨hin.1, hin.2.1⟩, ?_⟩
+          exact List.mem_map.mpr ⟨((t % ny : Nat) : Int), (mem_intRange' _ _ _).mpr ⟨hin.2.2.1, hin.2.2.2⟩, rfl⟩
         · simp only [Int.toNat_natCast]
           exact htd.symm
       · simpa using ht
@@ -563,8 +570,8 @@ theorem rowsFold_replicate (data kernel : List F) (nx ny a b : Nat) :
       · intro x hx hxt
         obtain ⟨i, hi, hx⟩ := List.mem_flatMap.mp hx
         obtain ⟨j, hj, rfl⟩ := List.mem_map.mp hx
-        have hi' := (mem_intRange _ _ _).mp hi
-        have hj' := (mem_intRange _ _ _).mp hj
+        have hi' := (mem_intRange' _ _ _).mp hi
+        have hj' := (mem_intRange' _ _ _).mp hj
         simp only at hxt
         have := idx_inj i.toNat j.toNat (t / ny) (t % ny) ny (by omega) hq (by rw [hxt]; exact htd)
         apply hin
